@@ -16,7 +16,7 @@ ASSUMPTIONS = [
     'labels: strings for labelled types (keys with repeated labels included), small ints for Matrix types',
 ]
 OUTSIDE = ['histories longer than the bound', 'edits outside the menu (e.g. direct dict.__setitem__ bypass, pop/del)', 'float rounding']
-BOUNDS = {'quick': {'history_length': 2, 'types': 'all 10', 'menu': 'see MENU in vq/props/c14.py'},
+BOUNDS = {'quick': {'history_length': 2, 'types': 'all 10', 'menu': 'see MENU in vq/props/c14.py', 'start': 'the empty model, and for four first edits a non-empty base model'},
           'thorough': {'history_length': 3, 'types': 'all 10'}}
 
 LABELLED = ['QUBO', 'PUBO', 'PCBO', 'QUSO', 'PUSO', 'PCSO']
